@@ -381,7 +381,7 @@ CONFIGS = [
     {"hashseed": 2, "block": ["scoreboard_cy", "time_utils_cy", "working_hours_cy"]},
     {"hashseed": 3, "block": []},
 ]
-COUNTS = {"quick": {"count": 600, "wall": 100}, "thorough": {"count": 12000, "wall": 1500}}
+COUNTS = {"quick": {"count": 880, "wall": 100}, "thorough": {"count": 12000, "wall": 1500}}
 RULE = (
     "scenario = seeded world (1-12 simulated `plan report` processes, inputs incl. failing ones, decoys, policy, "
     "enabled fault kinds) + tape; non-trivial = at least one context switch while two processes both hold temp state, "
